@@ -54,7 +54,74 @@ static long first_narrow_disagree(F8 m8, FW mw) {
     std::printf("narrow32 " NAME " %ld\n", first_narrow_disagree<char32_t>([](unsigned char c) { return detail::FN(c); }, [](char32_t c) { return detail::FN(c); })); \
     std::printf("narrowchar " NAME " %ld\n", first_narrow_disagree<char>([](unsigned char c) { return detail::FN(c); }, [](char c) { return detail::FN(c); }));
 
+// ---- constant initialisation (C13: the tables are the same in every language mode AND at every moment) ----
+// This translation unit is the first on the link line, so its namespace-scope initialisers run before those of
+// the library's translation units.  A snapshot of every table taken here must equal the one taken in main():
+// a table that is initialised dynamically (a non-constexpr constructor in one language mode) is still empty here.
+template <class F>
+static void snap_bits(std::string& o, const char* name, F member) {
+    o += name;
+    for (unsigned c = 0; c < 256; ++c) o += member(static_cast<unsigned char>(c)) ? '1' : '0';
+    o += '\n';
+}
+static std::string snapshot() {
+    std::string o;
+    snap_bits(o, "fragment ", [](unsigned char c) { return fragment_no_encode_set[c]; });
+    snap_bits(o, "query ", [](unsigned char c) { return query_no_encode_set[c]; });
+    snap_bits(o, "special_query ", [](unsigned char c) { return special_query_no_encode_set[c]; });
+    snap_bits(o, "path ", [](unsigned char c) { return path_no_encode_set[c]; });
+    snap_bits(o, "raw_path ", [](unsigned char c) { return raw_path_no_encode_set[c]; });
+    snap_bits(o, "posix_path ", [](unsigned char c) { return posix_path_no_encode_set[c]; });
+    snap_bits(o, "userinfo ", [](unsigned char c) { return userinfo_no_encode_set[c]; });
+    snap_bits(o, "component ", [](unsigned char c) { return component_no_encode_set[c]; });
+    snap_bits(o, "ascii_domain ", [](unsigned char c) { return detail::is_ascii_domain_char(c); });
+    snap_bits(o, "forbidden_domain ", [](unsigned char c) { return detail::is_forbidden_domain_char(c); });
+    snap_bits(o, "forbidden_host ", [](unsigned char c) { return detail::is_forbidden_host_char(c); });
+    snap_bits(o, "hex_digit ", [](unsigned char c) { return detail::is_hex_char(c); });
+    snap_bits(o, "ipv4_char ", [](unsigned char c) { return detail::is_ipv4_char(c); });
+    snap_bits(o, "scheme_char ", [](unsigned char c) { return detail::is_scheme_char(c); });
+    o += "kEncByte ";
+    for (unsigned c = 0; c < 256; ++c) { o += static_cast<char>('A' + (static_cast<unsigned char>(url_search_params::kEncByte[c]) >> 4)); o += static_cast<char>('A' + (static_cast<unsigned char>(url_search_params::kEncByte[c]) & 15)); }
+    o += "\nhexlookup ";
+    for (unsigned i = 0; i < 16; ++i) o += detail::kHexCharLookup[i];
+    o += "\nhex_to_num ";
+    for (unsigned c = 0; c < 256; ++c) o += static_cast<char>('A' + (detail::hex_char_to_num(static_cast<unsigned char>(c)) & 15));
+    o += "\nschemes ";
+    const char* names[] = { "http", "https", "ws", "wss", "ftp", "file", "blob", "x" };
+    for (const char* n : names) {
+        const auto* inf = url::get_scheme_info(string_view{ n, std::char_traits<char>::length(n) });
+        o += inf ? std::to_string(inf->default_port) + (inf->is_special ? "s" : "-") + (inf->is_file ? "f" : "-") + " " : std::string("none ");
+    }
+    o += "\npartstart ";
+    for (int i = 0; i < url::PART_COUNT; ++i) o += static_cast<char>('0' + detail::kPartStart[i]);
+    o += "\n";
+    return o;
+}
+static const std::string g_premain_snapshot = snapshot();
+
 int main() {
+    {
+        const std::string now = snapshot();
+        if (now == g_premain_snapshot) std::printf("premain same\n");
+        else {
+            // first differing line: its name, the position, the two values
+            std::size_t b = 0;
+            std::string what = "?";
+            while (b < now.size()) {
+                const std::size_t e = now.find('\n', b);
+                const std::string ln = now.substr(b, e - b);
+                const std::string lp = b < g_premain_snapshot.size() ? g_premain_snapshot.substr(b, e - b) : std::string();
+                if (ln != lp) {
+                    const std::size_t sp = ln.find(' ');
+                    std::size_t k = sp + 1; while (k < ln.size() && k < lp.size() && ln[k] == lp[k]) ++k;
+                    what = ln.substr(0, sp) + " " + std::to_string(k - sp - 1) + " " + (k < lp.size() ? std::string(1, lp[k]) : std::string("-")) + " " + (k < ln.size() ? std::string(1, ln[k]) : std::string("-"));
+                    break;
+                }
+                b = e + 1;
+            }
+            std::printf("premain differs %s\n", what.c_str());
+        }
+    }
     std::printf("cplusplus %ld\n", static_cast<long>(__cplusplus));
 #ifdef UPA_CPP_17
     std::printf("upa_cpp_17 1\n");
